@@ -47,9 +47,11 @@ def cubic_weights(c):
     res = it.call(ctx, c.getattr(o, "_cubic_interpolation_kernel"), [D], {})
     w = [res.at([z3.IntVal(0), z3.IntVal(q)]) for q in range(4)]
     a = [z3.If(d >= 0, d, -d) for d in dist]
+    at_node = ctx.branch(s.t == 0)  # two paths: on a grid node / strictly between nodes (keeps each VC's case analysis small)
     doc = [z3.If(x < 1, (1.5 * x - 2.5) * x * x + 1, ((-0.5 * x + 2.5) * x - 4) * x + 2) for x in a]
     for q in range(4):
         c.prove(f"cubic.documented_piecewise_cubic[{q}]", w[q] == doc[q])
+        c.assume(w[q] == doc[q])  # proved just above: the identities below are then statements about the documented cubic pieces
     c.prove("cubic.weights_sum_to_one", w[0] + w[1] + w[2] + w[3] == 1)
     c.prove("cubic.exact_at_grid_nodes", z3.Implies(s.t == 0, z3.And(w[0] == 0, w[1] == 1, w[2] == 0, w[3] == 0)))
     c.prove("cubic.reproduces_linear_functions", sum(w[q] * nodes[q] for q in range(4)) == s.t)
